@@ -340,6 +340,130 @@ theorem close_shape (t t' : Tree) (fuel : Nat) (id : Id) (h : WinTree.close t fu
                     simp only [Option.map_some, Option.some.injEq, core, Prod.mk.injEq] at this
                     exact ⟨pw2, rfl, by rw [this.2.2.2.2.1]; exact hpw'f.1, by rw [this.2.2.2.1]; exact hpw'f.2⟩
 
+/-- `TInv` only reads the store through `core` and the damage. -/
+theorem tinv_congr_core (content : Id → Int → Int → Cell) (screen : Int → Int → Cell) (t t' : Tree)
+    (hcore : ∀ x : Id, (t'.wins[x]?).map core = (t.wins[x]?).map core) (hsz : t'.wins.size = t.wins.size)
+    (hd : t'.root.damage = t.root.damage) (hI : TInv content screen t) : TInv content screen t' :=
+  ⟨treeOk_congr_core hcore hI.ok, ordered_core hcore hI.ord, rootsPositive_congr_core hcore hI.pos,
+    by rw [hd]; exact hI.nonempty, by rw [hd]; exact hI.dinv, fun L C w l c ho => by
+      rw [ownerAt_congr_view (fun x => map_core_view (hcore x)) hsz] at ho
+      rw [hd]
+      exact hI.inv L C w l c ho⟩
+
+/-- **`tickit_window_close`** of any window (the root included, whatever its visibility), with requests queued. -/
+theorem close_tinv (content : Id → Int → Int → Cell) (screen : Int → Int → Cell) (t t' : Tree) (id : Id)
+    (h : WinTree.close t (t.wins.size + 1) id = .ok t') (hI : TInv content screen t) :
+    TInv content screen t' ∧ (Flags t → Flags t') := by
+  have hok := hI.ok
+  unfold WinTree.close at h
+  simp only [bind, Bind.bind] at h
+  cases hg : WinTree.get t id with
+  | ub e => rw [hg] at h; cases h
+  | ok w0 =>
+    rw [hg] at h
+    simp only at h
+    have hw0 := get_ok hg
+    have fin : ∀ (tc : Tree), WinTree.modify tc id (fun w => { w with isClosed := true }) = .ok t' →
+        (∀ x : Id, (t'.wins[x]?).map core = (tc.wins[x]?).map core) ∧ t'.root = tc.root ∧ t'.wins.size = tc.wins.size := by
+      intro tc hm
+      unfold WinTree.modify at hm
+      simp only [bind, Bind.bind] at hm
+      cases hgc : WinTree.get tc id with
+      | ub e => rw [hgc] at hm; cases hm
+      | ok wc =>
+        rw [hgc] at hm
+        simp only [pure, Pure.pure] at hm
+        cases hm
+        exact ⟨core_set_closed tc id wc (get_ok hgc).1, rfl, set_size _ _ _⟩
+    cases hp : w0.parent with
+    | none =>
+      simp only [hp, pure, Pure.pure] at h
+      obtain ⟨hcore, hroot, hsz⟩ := fin t h
+      exact ⟨tinv_congr_core content screen t t' hcore hsz (by rw [hroot]) hI, fun hf => by unfold Flags; rw [hroot]; exact hf⟩
+    | some p =>
+      simp only [hp] at h
+      have hpid : p ≠ id := fun hx => hok.noSelf id w0 hw0.1 (by rw [hp, hx])
+      have hid0 : id ≠ 0 := by
+        intro hx
+        obtain ⟨rw0, hrw0, _, _, hrp, _⟩ := hok.rootWin.ex
+        rw [hx] at hw0
+        rw [hw0.1] at hrw0; cases hrw0
+        rw [hp] at hrp; cases hrp
+      cases hpu : purgeHierarchyChanges t (t.wins.size + 1) id with
+      | ub e => rw [hpu] at h; cases h
+      | ok tq =>
+        rw [hpu] at h
+        simp only at h
+        obtain ⟨hqw, hqd, hqe, hql, _⟩ := purge_spec t _ id tq hpu
+        have hIq : TInv content screen tq :=
+          tinv_congr_core content screen t tq (fun x => by rw [hqw]) (by rw [hqw]) hqd hI
+        cases hd : doHierarchyChange tq (t.wins.size + 1) .remove p id with
+        | ub e => rw [hd] at h; cases h
+        | ok td =>
+          rw [hd] at h
+          simp only at h
+          obtain ⟨hcore, hroot, hsz⟩ := fin td h
+          unfold doHierarchyChange at hd
+          simp only [bind, Bind.bind] at hd
+          rw [get_congr_wins hqw p, get_congr_wins hqw id, hg] at hd
+          cases hgp : WinTree.get t p with
+          | ub e => rw [hgp] at hd; cases hd
+          | ok pw =>
+            rw [hgp] at hd
+            have hpw := get_ok hgp
+            simp only at hd
+            cases hlr : listRemove pw.children id with
+            | ub e => rw [hlr] at hd; cases hd
+            | ok cs =>
+              rw [hlr] at hd
+              simp only at hd
+              obtain ⟨hcs, hmem⟩ := listRemove_spec _ _ _ hlr
+              generalize hpw' : ({ pw with children := cs, focusedChild := if pw.focusedChild = some id then none else pw.focusedChild } : Win) = pw' at hd
+              have hpw'f : pw'.isVisible = pw.isVisible ∧ pw'.freed = pw.freed ∧ pw'.rect = pw.rect ∧ pw'.parent = pw.parent ∧
+                  pw'.isRoot = pw.isRoot ∧ pw'.children = pw.children.erase id := by
+                rw [← hpw', hcs]; exact ⟨rfl, rfl, rfl, rfl, rfl, rfl⟩
+              generalize hta : WinTree.set tq p pw' = ta at hd
+              have hta_id : ta.wins[id]? = some w0 := by
+                rw [← hta, set_wins_other tq p id _ (Ne.symm hpid), hqw]; exact hw0.1
+              have hga : WinTree.get ta id = .ok w0 := by
+                unfold WinTree.get; rw [hta_id]; simp [hw0.2]
+              rw [hga] at hd
+              simp only [pure, Pure.pure] at hd
+              generalize htb : WinTree.set ta id { w0 with parent := none } = tb at hd
+              have hb_id : tb.wins[id]? = some { w0 with parent := none } := by
+                rw [← htb]; exact set_wins_self ta id w0 _ hta_id
+              have hb_p : tb.wins[p]? = some pw' := by
+                rw [← htb, set_wins_other ta id p _ hpid, ← hta]
+                exact set_wins_self tq p pw _ (by rw [hqw]; exact hpw.1)
+              have hb_other : ∀ x : Id, x ≠ p → x ≠ id → tb.wins[x]? = tq.wins[x]? := by
+                intro x hxp hxi
+                rw [← htb, set_wins_other ta id x _ hxi, ← hta, set_wins_other tq p x _ hxp]
+              have hb_size : tb.wins.size = tq.wins.size := by rw [← htb, set_size, ← hta, set_size]
+              have hb_root : tb.root = tq.root := by rw [← htb, ← hta]; rfl
+              have honly : ∀ (x : Id) (w : Win), x ≠ p → x ≠ id → tq.wins[x]? = some w → id ∉ w.children := by
+                intro x w hx _ hw hm
+                rw [hqw] at hw
+                obtain ⟨cw, hcw, hcp, _⟩ := hok.wf.child x w hw id hm
+                rw [hw0.1] at hcw; cases hcw
+                rw [hp] at hcp
+                exact hx (Option.some.inj hcp).symm
+              have hnd := hok.nodup p pw hpw.1
+              obtain ⟨r1, r2, r3, _⟩ := relist_gen content screen tq tb td p id pw pw' w0 { w0 with parent := none }
+                (pw.children.erase id) (t.wins.size + 1) hIq (by rw [hqw]; omega) (by rw [hqw]; exact hpw.1)
+                (by rw [hqw]; exact hw0.1) hpid hid0 honly (erase_filter_ne id _) (hnd.erase id) hb_p hpw'f hb_id
+                ⟨rfl, rfl, rfl, rfl, rfl, Or.inr rfl⟩ hb_other hb_size hb_root
+                (fun hx => absurd hx (List.Nodup.not_mem_erase hnd)) hd
+              refine ⟨tinv_congr_core content screen td t' hcore hsz (by rw [hroot]) r1, fun hf => ?_⟩
+              have hfq : Flags tq := by
+                intro hdd
+                rw [hqd] at hdd
+                rw [hqe, hql]
+                exact hf hdd
+              have := r2.flags hfq
+              unfold Flags
+              rw [hroot]
+              exact this
+
 theorem close_pc (t t' : Tree) (fuel : Nat) (id : Id) (h : WinTree.close t fuel id = .ok t') (hns : NoSelfParent t)
     (hpl : ParentListed t) : ParentListed t' := by
   obtain ⟨w0, hw0, hcase⟩ := close_shape t t' fuel id h
